@@ -46,14 +46,16 @@ Slots(groups) == [i \in DOMAIN Genome |-> IF \E k \in DOMAIN groups : groups[k] 
 \* ---------------------------------------------------------------- state
 VARIABLES groups, consumer,                \* configuration
           ci, gi, nextName, seen,          \* generator state
-          out, status, pulls
+          out, status, pulls,
+          ctxIgnored,                      \* the ignored names of THIS genome context (state of the object, not of the call)
+          derived                          \* contexts derived from this one with with_ignored_added: set of their ignored sets
 
-vars == <<groups, consumer, ci, gi, nextName, seen, out, status, pulls>>
+vars == <<groups, consumer, ci, gi, nextName, seen, out, status, pulls, ctxIgnored, derived>>
 
 \* fetch the next non-ignored group name from position g on: <<name or "none" or "unknown!", next index>>
 RECURSIVE Fetch(_, _)
 Fetch(gs, g) == IF g > Len(gs) THEN <<"none", g>>
-                ELSE IF gs[g] = Ignored /\ Mechanism = "iter_chromosomes" THEN Fetch(gs, g + 1)
+                ELSE IF gs[g] \in ctxIgnored /\ Mechanism = "iter_chromosomes" THEN Fetch(gs, g + 1)
                 ELSE <<gs[g], g + 1>>
 
 Init == /\ groups \in GroupSeqs
@@ -61,6 +63,8 @@ Init == /\ groups \in GroupSeqs
         /\ ci = 1 /\ gi = 1 /\ nextName = "unfetched" /\ seen = {}
         /\ out = <<>> /\ status = "run"
         /\ pulls = 0
+        /\ ctxIgnored = (IF Ignored = "" THEN {} ELSE {Ignored})
+        /\ derived = {}
 
 MaxPulls == Len(Genome) + (IF consumer = "exhaust" THEN 1 ELSE 0)
 
@@ -70,7 +74,7 @@ Prime == /\ Mechanism = "iter_chromosomes" /\ status = "run" /\ nextName = "unfe
          /\ LET f == Fetch(groups, 1) IN
             IF f[1] = Unknown THEN status' = "error" /\ UNCHANGED <<nextName, gi>>      \* _included_groups raises
             ELSE nextName' = f[1] /\ gi' = f[2] /\ status' = "run"
-         /\ UNCHANGED <<groups, consumer, ci, seen, out, pulls>>
+         /\ UNCHANGED <<groups, consumer, ci, seen, out, pulls, ctxIgnored, derived>>
 
 Step ==
   /\ Mechanism = "iter_chromosomes" /\ status = "run" /\ nextName # "unfetched"
@@ -95,18 +99,18 @@ Step ==
                          /\ nextName' = f[1] /\ gi' = f[2] /\ status' = "run"
           ELSE /\ out' = Append(out, "empty") /\ ci' = ci + 1 /\ seen' = seen \cup {name}
                /\ UNCHANGED <<gi, nextName>> /\ status' = "run"
-  /\ UNCHANGED <<groups, consumer>>
+  /\ UNCHANGED <<groups, consumer, ctxIgnored, derived>>
 
 \* as built: the error that was due after the yield is raised only if the consumer pulls again
 Deferred == /\ status = "deferred"
             /\ IF pulls < MaxPulls THEN status' = "error" /\ pulls' = pulls + 1
                                    ELSE status' = "completed" /\ pulls' = pulls
-            /\ UNCHANGED <<groups, consumer, ci, gi, nextName, seen, out>>
+            /\ UNCHANGED <<groups, consumer, ci, gi, nextName, seen, out, ctxIgnored, derived>>
 
 \* the consumer stops pulling (zip with the contig sizes is exhausted): evaluation completes
 Finish == /\ Mechanism = "iter_chromosomes" /\ status = "run" /\ nextName # "unfetched"
           /\ pulls = MaxPulls /\ status' = "completed"
-          /\ UNCHANGED <<groups, consumer, ci, gi, nextName, seen, out, pulls>>
+          /\ UNCHANGED <<groups, consumer, ci, gi, nextName, seen, out, pulls, ctxIgnored, derived>>
 
 \* ---- SynchedStream ---------------------------------------------------------------------------
 \* one step per group of the data (multistream.py:68-95), then the trailing defaults (96-103)
@@ -122,9 +126,16 @@ SStep ==
                /\ out' = out \o [k \in 1..(p - ci) |-> "empty"] \o <<name>>
                /\ seen' = seen \cup {Genome[k] : k \in ci..p}
                /\ ci' = p + 1 /\ gi' = gi + 1 /\ status' = "run"
-  /\ UNCHANGED <<groups, consumer, nextName, pulls>>
+  /\ UNCHANGED <<groups, consumer, nextName, pulls, ctxIgnored, derived>>
 
-Next == Prime \/ Step \/ Deferred \/ Finish \/ SStep
+\* ---- GenomeContext.with_ignored_added (genome_context.py:40-56) --------------------------------
+\* a NEW context with more ignored names; this context keeps its own (the two do not share the set).
+\* Modelled before the stream is opened: what matters is that the later evaluation is unaffected.
+Derive == /\ Mechanism = "iter_chromosomes" /\ status = "run" /\ nextName = "unfetched" /\ derived = {}
+          /\ derived' = {ctxIgnored \cup {Genome[Len(Genome)], Unknown}}
+          /\ UNCHANGED <<groups, consumer, ci, gi, nextName, seen, out, status, pulls, ctxIgnored>>
+
+Next == Prime \/ Step \/ Deferred \/ Finish \/ SStep \/ Derive
 Spec == Init /\ [][Next]_vars
 
 \* ---------------------------------------------------------------- properties
@@ -134,5 +145,7 @@ NoSilentDrop == status = "completed" => (Compatible(groups) /\ out = Slots(group
 NoSpuriousError == status = "error" => ~Compatible(groups)
 \* what is delivered so far is always right (a prefix of the slots), whatever happens later
 PrefixRight == \A i \in DOMAIN out : out[i] \in {"empty", Genome[i]}
+\* deriving a context never changes the names this one ignores
+DeriveFrame == [][ctxIgnored' = ctxIgnored]_vars
 TypeOK == status \in {"run", "deferred", "error", "completed"} /\ ci \in 1..(Len(Genome) + 1)
 ==============================================================================
